@@ -232,3 +232,48 @@ pub fn mutate_tokens(rng: &mut Rng, src: &[u8]) -> Vec<u8> {
     }
     b
 }
+
+/// Shorten one to three hexadecimal or literal strings of the file to 0..17 bytes of content (cipher texts
+/// then lack their IV or a whole block), keeping the syntax intact; stream data is cut by rewriting /Length.
+pub fn shorten_strings(rng: &mut Rng, src: &[u8]) -> Vec<u8> {
+    let mut b = src.to_vec();
+    for _ in 0..1 + rng.usize(3) {
+        // candidate hex strings `<…>` (not `<<`)
+        let mut spans = vec![];
+        let mut i = 0;
+        while i + 1 < b.len() {
+            if b[i] == b'<' && b[i + 1] != b'<' && (i == 0 || b[i - 1] != b'<') {
+                if let Some(off) = b[i + 1..].iter().position(|&c| c == b'>') {
+                    if b[i + 1..i + 1 + off].iter().all(|c| c.is_ascii_hexdigit() || c.is_ascii_whitespace()) && off >= 2 {
+                        spans.push((i + 1, i + 1 + off));
+                    }
+                    i += off + 1;
+                    continue;
+                }
+            }
+            i += 1;
+        }
+        if spans.is_empty() {
+            break;
+        }
+        let (s, e) = *rng.pick(&spans);
+        let keep_bytes = *rng.pick(&[0usize, 1, 2, 7, 15, 16, 17]);
+        let keep = (2 * keep_bytes).min(e - s);
+        b.drain(s + keep..e);
+    }
+    if rng.chance(1, 2) {
+        // cut a stream short: a smaller /Length (the data that follows is then looked at as `endstream`)
+        let pat = b"/Length ";
+        let hits: Vec<usize> = b.windows(pat.len()).enumerate().filter(|(_, w)| *w == pat).map(|(i, _)| i + pat.len()).collect();
+        if !hits.is_empty() {
+            let i = *rng.pick(&hits);
+            let mut j = i;
+            while j < b.len() && b[j].is_ascii_digit() { j += 1; }
+            if j > i {
+                let n = *rng.pick(&["0", "1", "7", "15", "16", "17", "31"]);
+                b.splice(i..j, n.bytes());
+            }
+        }
+    }
+    b
+}
